@@ -203,6 +203,39 @@ def gen_files(rng, years, with_est, quirk=False):
     return f
 
 
+def years_with_a_simulated_day(start, end):
+    """every calendar year that contains at least one day of the period, read off the calendar"""
+    out, d = [], start
+    while d <= end:
+        if d.year not in out:
+            out.append(d.year)
+        d = min(end, dt.date(d.year, 12, 31)) + dt.timedelta(days=1)
+    return out
+
+
+def gen_period(rng, years):
+    """start / end date of the simulated period inside the calendar years `years`: whole years, a period
+    that ends earlier in the calendar than it starts (Nov 1 .. Feb 28), exactly one year (Jun 1 .. May 31) and
+    one day more, a leap-day start, a partial single year, one or two days around New Year"""
+    y0, y1 = years[0], years[-1]
+    leap = lambda y: (y % 4 == 0 and y % 100 != 0) or y % 400 == 0  # noqa: E731
+    if y0 == y1:
+        shapes = [(dt.date(y0, 1, 1), dt.date(y0, 12, 31)), (dt.date(y0, 3, 5), dt.date(y0, 9, 9)),
+                  (dt.date(y0, 12, 31), dt.date(y0, 12, 31)), (dt.date(y0, 1, 1), dt.date(y0, 1, 2))]
+        if leap(y0):
+            shapes.append((dt.date(y0, 2, 29), dt.date(y0, 12, 30)))
+    else:
+        shapes = [(dt.date(y0, 1, 1), dt.date(y1, 12, 31)), (dt.date(y0, 11, 1), dt.date(y1, 2, 28)),
+                  (dt.date(y0, 11, 1), dt.date(y1, 2, 28)), (dt.date(y0, 6, 1), dt.date(y1, 5, 31)),
+                  (dt.date(y0, 6, 1), dt.date(y1, 6, 1)), (dt.date(y0, 12, 31), dt.date(y1, 1, 1)),
+                  (dt.date(y0, 3, 1), dt.date(y1, 2, 28))]
+        if leap(y0):
+            shapes.append((dt.date(y0, 2, 29), dt.date(y1, 2, 28)))
+    start, end = rng.choice(shapes)
+    assert years_with_a_simulated_day(start, end) == list(years)
+    return [start.isoformat(), end.isoformat()]
+
+
 def variant_world(rng, a):
     """same program names, baseline and simulation count as `a`; other years, prices, retention,
     file contents and file formats"""
@@ -213,7 +246,7 @@ def variant_world(rng, a):
     files = {"%s|%d" % (p, s): gen_files(rng, years, p != a["baseline"] and has_est[p])
              for p in a["programs"] for s in range(a["n"])}
     b.update({"programs": list(reversed(a["programs"])), "baseline": a["baseline"], "years": years, "files": files,
-              "extras": {}, "keep_all": not a["keep_all"],
+              "extras": {}, "keep_all": not a["keep_all"], "period": gen_period(rng, years),
               "econ": {p: [rng.choice([25, 30]), rng.choice([0.5, 4.0])] for p in a["programs"]}})
     return b
 
@@ -268,6 +301,7 @@ def gen_world(rng, n=None, reserved=None, quirk=False, base="P_none", est_withou
             if rng.random() < 0.3:
                 extras["%s|%d" % (p, s)] = [rng.choice(["timeseries.png", "notes.txt", "timeseries.csv.bak"])]
     return {"programs": programs, "baseline": base, "n": n, "keep_all": rng.random() < 0.5, "years": years,
+            "period": gen_period(rng, years),
             "econ": {p: [rng.choice([25, 28, 30, 28, 0]), rng.choice([0.5, 1.0, 2.0, 4.0, 0.0])] for p in programs},
             "files": files, "extras": extras, "logs": rng.random() < 0.8,
             "format_seed": rng.choice([0, rng.randrange(1, 10 ** 6), rng.randrange(1, 10 ** 6)])}
@@ -304,10 +338,12 @@ def enc_list(xs):
 
 
 def reset_line(world):
+    """the model computes the years of the run itself (`yearsOf`) from the configured period"""
     from harness.adapters import summary as S
 
     k = Fraction(S.kg_to_mmbtu())
-    return "reset %s %d %d" % (enc_list(map(str, world["years"])), k.numerator, k.denominator)
+    start, end = S.period_of(world)
+    return "resetp %s %s %d %d" % (enc_date(start.isoformat()), enc_date(end.isoformat()), k.numerator, k.denominator)
 
 
 def safe_model_lines(ctx, world, result, inp, step=0, history=False):
@@ -680,6 +716,12 @@ def reserved_class(p):
     return None
 
 
+def esca_cols(y):
+    from harness.adapters import summary as S
+
+    return [S.esca.T_ANN_MIT.format(y), S.esca.T_ANN_EMIS.format(y), S.esca.EST_ANN_EMIS.format(y)]
+
+
 def once_each_violation(ctx, name, keys, want, inp):
     """keys != want.  The recorded reserved-name findings explain exactly one shape: every row of the
     reserved programs is missing and everything else is as wanted; any other shape is reported under
@@ -718,6 +760,13 @@ def oracle(ctx, world, result, inp, second=None):
     if result["error"] and result["error"].startswith("run:"):
         ctx.violate("C14:crash:batch-loop", "the batch loop raised outside gen_summary_outputs: %s" % result["error"][4:], inp)
         return
+    from harness.adapters import summary as S0
+
+    p_start, p_end = S0.period_of(world)
+    want_years = years_with_a_simulated_day(p_start, p_end)
+    if result.get("real_years") is not None and list(result["real_years"]) != want_years:
+        ctx.violate("C14:years:list", "the summaries are built for the years %s, the period %s .. %s has simulated days in %s"
+                    % (result["real_years"], p_start, p_end, want_years), inp)
     if result.get("mutated_inputs"):
         ctx.violate("C14:history:inputs-mutated", "the run changed the objects it was configured with (shared with every "
                     "other manager built from them): %s" % result["mutated_inputs"], inp)
@@ -730,6 +779,11 @@ def oracle(ctx, world, result, inp, second=None):
         if rows:
             header = list(rows[0].keys())
             expect_header = ["Program Name", "Simulation"] + list(ts_cols if name == "ts" else em_cols)
+            for y in (want_years if name == "emis" else []):
+                for c in (esca_cols(y)):
+                    if c not in header:
+                        ctx.violate("C14:years:missing-column", "Emissions Summary has no column %r although the period "
+                                    "%s .. %s has simulated days in %d" % (c, p_start, p_end, y), inp)
             if header != expect_header:
                 odd = [c for c in header if c not in expect_header] + [c for c in expect_header if c not in header]
                 ctx.violate("C14:columns:%s" % name, "%s summary: columns are not the key and the configured statistics of "
@@ -753,6 +807,21 @@ def oracle(ctx, world, result, inp, second=None):
                 ctx.violate(sig, "%s summary row of %s: %s is not the statistic of that pair's own files (got %s, own files give %s)"
                             % (name, list(k), [cols[i] for i in bad][:3], [str(row[i]) for i in bad][:3],
                                [str(exp[i]) for i in bad][:3]), inp)
+            if name == "emis":
+                # the yearly cells add up to what the pair's own records emitted, when all of them lie in the
+                # years of the period (records that started earlier have a share before the period)
+                recs = [(r[1], D(r[5]), D(r[6])) for r in world["files"]["%s|%s" % k]["emis"] if r[5] is not None]
+                ys = [d.year for (_, a_, b_) in recs for d in (a_, b_) if d is not None]
+                if recs and min(ys) >= want_years[0] and max(ys) <= want_years[-1]:
+                    raw = {c: v for c, v in (result["final"]["emis"] and [
+                        x for x in result["final"]["emis"] if (x["Program Name"], str(x["Simulation"]).strip()) == k][0].items())}
+                    from harness.adapters import summary as S3
+                    cells = [cell(raw.get(S3.esca.T_ANN_EMIS.format(y))) for y in want_years]
+                    if all(isinstance(c, Fraction) for c in cells) and sum(cells) != sum(Fraction(v) for (v, _, _) in recs):
+                        ctx.violate("C14:years:shares-do-not-add-up", "row %s: the 'Year Y \"True\" Emissions' cells of the years "
+                                    "of the period add up to %s, the pair's own records emitted %s"
+                                    % (list(k), sum(cells), sum(v for (v, _, _) in recs)), inp)
+                    ctx.count("oracle_year_sums")
             ctx.count("oracle_rows")
     # cost summary
     nb = [p for p in world["programs"] if p != world["baseline"]]
@@ -827,6 +896,9 @@ def oracle(ctx, world, result, inp, second=None):
 # ----------------------------------------------------------------------------------------------
 # unit-level correspondence: name regexes, kept marker, batching, ordinals
 # ----------------------------------------------------------------------------------------------
+year_expect = {}
+
+
 def unit_lines(ctx):
     import re
 
@@ -848,6 +920,7 @@ def unit_lines(ctx):
         names.add("_".join(rng.choice(toks) for _ in range(rng.randint(1, 7))))
     names = sorted(n for n in names if n and " " not in n)
     lines, expect = [], []
+    year_expect.clear()
     for nm in names:
         m = M.OUTPUTS_NAME_SIM_EXTRACTION_REGEX.match(nm)
         flags = "".join("1" if x else "0" for x in (
@@ -862,6 +935,20 @@ def unit_lines(ctx):
         sims = [[b * 5 + i for i in range(c)] for b, c in enumerate(bs)]
         lines.append("batches %d" % n)
         expect.append(json.dumps(bs, separators=(",", ":")) + " " + json.dumps(sims, separators=(",", ":")))
+    from harness.adapters import summary as _S2
+
+    bd = [(1, 1), (2, 28), (3, 1), (5, 31), (6, 1), (11, 1), (12, 31)]
+    for y0 in (2017, 2023, 2024):
+        for dy in (0, 1, 2, 4):
+            for (m0, d0) in bd + ([(2, 29)] if y0 == 2024 else []):
+                for (m1, d1) in bd + ([(2, 29)] if (y0 + dy) in (2024, 2028) else []):
+                    a, b = dt.date(y0, m0, d0), dt.date(y0 + dy, m1, d1)
+                    if a > b:
+                        continue
+                    lines.append("years %s %s" % (enc_date(a.isoformat()), enc_date(b.isoformat())))
+                    real = _S2.real_simulation_years(a, b)
+                    expect.append(None)  # compared below on the first list only
+                    year_expect[len(lines) - 1] = json.dumps(real, separators=(",", ":"))
     d = dt.date(1999, 12, 25)
     epoch = dt.date(1970, 1, 1).toordinal()
     while d < dt.date(2031, 1, 10):
@@ -916,8 +1003,11 @@ def run(ctx):
         ctx.broke("unit-level tie (regexes, kept marker, batch_simulations)", "%s: %s" % (type(e).__name__, e))
         ul, ue = [], []
     ur = drv.run(ul)
-    for line, exp, got in zip(ul, ue, ur):
+    for i, (line, exp, got) in enumerate(zip(ul, ue, ur)):
         ctx.evaluations += 1
+        if exp is None:  # `years`: the model's first list against the real calc_simulation_years
+            exp, got = year_expect[i], got.split(" ")[0]
+            ctx.count("unit:years")
         if exp != got:
             ctx.disagree("summary/unit", {"line": line}, got, exp)
     ctx.count("unit_lines", len(ul))
